@@ -233,7 +233,10 @@ func (self *Analyzer) identExpression(node pAst.IdentExpression) ast.AnalyzedIde
 		}
 
 		// only mark the function as `used` if the usage originates from another function
-		if self.currentModule.CurrentFunction.FnType.Kind() == normalFunctionKind {
+		if self.currentModule.CurrentFunction == nil {
+			// Referenced from a global initializer: no current function exists.
+			fn.Used = true
+		} else if self.currentModule.CurrentFunction.FnType.Kind() == normalFunctionKind {
 			currFn := self.currentModule.CurrentFunction.FnType.(normalFunction)
 			if fn.FnType.Kind() == normalFunctionKind {
 				toBeCalled := fn.FnType.(normalFunction)
@@ -975,7 +978,7 @@ func (self *Analyzer) callExpression(node pAst.CallExpression) ast.AnalyzedCallE
 
 	// If this is a thread spawn, create a thread handle as the result
 	// TODO: migrate this to the `core-lib` and reference the type from here
-	if node.IsSpawn {
+	if node.IsSpawn && thisExpressionResultsIn != nil {
 		thisExpressionResultsIn = ast.NewObjectType([]ast.ObjectTypeField{
 			ast.NewObjectTypeField(
 				pAst.NewSpannedIdent("join", node.Span()), ast.NewFunctionType(
